@@ -10,6 +10,8 @@ FIX = [  # (substring of commit subject, property, key at the time, what failed)
  ('deep copy terminates on a typed slice', 'C03', 'crash-stack-overflow:slice-reaching-itself-through-struct-values', 'type T struct{ID int; Vals []T}; v.Vals[0].Vals = v.Vals (a typed slice reaching itself through its own by-value element) in a default or source value overflowed the stack in deepCopySlice'),
  ('deep copy keeps one copy of a node referenced through plain and defined pointer types', 'C03', 'split:ptr:deepcopy:plain-and-defined-pointer-to-one-node', 'type Ref *Node; n := &Node{}; Cfg{A: n /* *Node */, B: n /* Ref */, C: n /* *Node */}: the result had A != C although identical in the input (second copy made for the Ref-typed reference, registerPair then overwrote the *Node memo entry)'),
  ('env source panicked on a set variable for a user-declared pointer', 'C16', 'panic:types:env+ptr-to-collection-leaves:transform.populateStruct', 'Cfg{Tags *[]string} (or a pointer to a map) with TAGS=a,b through env.Source: reflect.Set: value of type []string is not assignable to type *[]string in populateStruct (top-level field); an error instead of the value one struct level down'),
+ ('deep copy of one map referenced through two defined map types', 'C02', 'panic:.(*deepCopier).deepCopyMap', 'type A map[string]int; type B map[string]int; Cfg{X: A(m), Y: B(m)} (one map under two defined map types) in the defaults or a source value: dials.Config panicked in deepCopyMap (reflect.Set: value of type A is not assignable to type B)'),
+ ('deep copy descends into an embedded struct of an unexported type', 'C02', 'promoted-config:shared-memory:view-vs-defaults', 'type inner struct{M map[string]int}; type Cfg struct{ inner }: the promoted exported fields of the embedded unexported-type struct were copied shallowly, so View().M was the caller\'s own map, shared with the defaults and by every version'),
  ('an array in an interface field', 'C03', 'split:any-set-by-two-layers', 'array in an interface field set by two layers was deep-copied twice: Any[0] != Kids[0] although identical in the source value'),
  ('a Blank whose Watcher source failed to take over', 'C08', 'monitor-did-not-exit:all-done:blank-done-after-rejected-watcher-setsource', 'Blank.SetSource(watcher) whose first value is refused by Verify (or whose propagation/Watch fails) left the Blank believing the never-started Watcher owned the slot: Blank.Done became a no-op and later SetSource calls were refused, so after every watching source had called Done the monitor and callback goroutines never exited'),
  ('API calls racing', 'C08', 'crash:Dials.submitEventBlocking', 'RegisterCallback/unregister after or during monitor shutdown panicked with send on closed channel'),
